@@ -370,7 +370,7 @@ func range_(tokens []Token) ([2]int, error) {
 		for i, token := range tokens {
 			switch token := token.(type) {
 			case pa.Ident:
-				if token.Value == "infinite" {
+				if utils.AsciiLower(token.Value) == "infinite" {
 					values[i] = math.MaxInt32
 					continue
 				}
@@ -438,7 +438,7 @@ func fallback(tokens []Token, _ string, out *csDescriptors) error {
 	}
 	token := tokens[0]
 	ident := getCustomIdent(token)
-	if ident == "none" {
+	if utils.AsciiLower(ident) == "none" {
 		return ErrInvalidValue
 	}
 	out.Fallback = ident
@@ -513,7 +513,7 @@ func preprocessDescriptors(baseUrl string, descriptors []pa.Compound, out parsed
 		if !ok || decl.Important {
 			continue
 		}
-		if decl.Name == "font-display" {
+		if utils.AsciiLower(decl.Name) == "font-display" {
 			continue
 		}
 
